@@ -83,6 +83,40 @@ def check_record_wins(ctx, rule):
                    'deprecated-name override no longer names the operator\'s '
                    'effective override')
     ctx.floor(rule, len(seen), 1, 'writes of the file-rule record')
+    # ... and every entry of the file is recorded, whatever its value (an
+    # empty check string is a rule too: always allow)
+    skipped = None
+    n_el = 0
+    for p in t.paths:
+        if p.outcome.kind == 'raise':
+            continue
+        loops = [c for c in p.conds if c.kind == 'loop' and c.pol]
+        if not loops:
+            continue
+        n_el += 1
+        wrote = any((e.kind == 'store' and (
+            (isinstance(e.node, ast.Subscript) and U(e.node.value) == S)
+            or U(e.node) == S)) or (
+                e.kind in ('call', 'maycall') and method_call(e.node)
+                and U(t.expand(method_call(e.node)[0])) == S
+                and method_call(e.node)[1] in ('update', 'setdefault'))
+            for e in p.events)
+        # a comprehension / dict built aside and stored later counts through
+        # its accumulator
+        built = any(e.kind == 'store' and isinstance(
+            e.node, ast.Subscript) and isinstance(
+                e.node.value, ast.Name) and e.node.value.id.startswith(
+                    'SYM_m') for e in p.events)
+        if not wrote and not built and skipped is None:
+            skipped = p
+    ctx.ob(rule, skipped is None, ctx.where(rec.module, rec.node), rec.qual,
+           'every entry of the file is recorded (%d element paths)' % n_el,
+           'no entry of a policy file is left out of the record'
+           if skipped is None else
+           'an entry of the policy file can be left out of the file-rule '
+           'record (path: %s) although it is applied to the rule set: the '
+           'deprecated-name override test then misses an operator override'
+           % skipped.cond_text()[-200:])
 
 
 def roles(ctx):
